@@ -123,6 +123,19 @@ if want("pdb"):
         except Exception as exc:
             check(g, f"natom={natom} wide={wide}", False, repr(exc))
 
+    # serial numbers are not atom counts: a TER record takes a serial (wwPDB 3.3), so CONECT serials after it are
+    # one higher than the position of the atom
+    g4 = group("pdb-ter", "PDB v3.3 file with a TER record between a chain and a HETATM water; CONECT records refer to serial numbers")
+    lines = ["TITLE     ter", "ATOM      1 N    ALA A   1       0.000   0.000   0.000  1.00 20.00           N", "ATOM      2 CA   ALA A   1       1.450   0.000   0.000  1.00 20.00           C", "ATOM      3 C    ALA A   1       2.000   1.400   0.000  1.00 20.00           C", "TER       4      ALA A   1", "HETATM    5 O    HOH A   2       5.000   5.000   5.000  1.00 20.00           O", "HETATM    6 H1   HOH A   2       5.900   5.000   5.000  1.00 20.00           H", "HETATM    7 H2   HOH A   2       4.700   5.900   5.000  1.00 20.00           H", "CONECT    5    6    7", "CONECT    6    5", "CONECT    7    5", "END"]
+    fn = os.path.join(tmp, "ter.pdb")
+    open(fn, "w").write("\n".join(lines) + "\n")
+    try:
+        d = load_one(fn)
+        got = sorted({tuple(sorted((int(a), int(b)))) for a, b in d.bonds[:, :2]}) if d.bonds is not None else []
+        check(g4, "water O-H bonds after a TER record", list(d.atnums) == [7, 6, 6, 8, 1, 1] and got == [(3, 4), (3, 5)], f"atoms {list(map(int, d.atnums))}; bonds (atom indices) {got}, expected [(3, 4), (3, 5)]")
+    except Exception as exc:
+        check(g4, "water O-H bonds after a TER record", False, repr(exc))
+
 # ---------------------------------------------------------------------------------------------- GRO (Gromos87)
 if want("gro"):
     def gro_file(pos, vel, box):
